@@ -264,6 +264,33 @@ namespace msgpack {
             JSONCONS_VISITOR_RETURN;
         }
 
+        // A timestamp is seconds + nanoseconds/10^9 with 0 <= nanoseconds < 10^9: 
+        // the seconds are the floor of the quotient, also for negative values
+        static void floor_divide(int64_t val, int64_t divisor, int64_t& quot, int64_t& rem)
+        {
+            quot = val / divisor;
+            rem = val % divisor;
+            if (rem < 0)
+            {
+                --quot;
+                rem += divisor;
+            }
+        }
+
+        static void floor_divide(const bigint& val, int64_t divisor, int64_t& quot, int64_t& rem)
+        {
+            bigint q;
+            bigint r;
+            val.divide(divisor, q, r, true);
+            if (r < 0)
+            {
+                q -= 1;
+                r += divisor;
+            }
+            quot = static_cast<int64_t>(q);
+            rem = static_cast<int64_t>(r);
+        }
+
         void write_timestamp(int64_t seconds, int64_t nanoseconds)
         {
             if ((seconds >> 34) == 0) 
@@ -322,16 +349,10 @@ namespace msgpack {
                     }
                     if (n != 0)
                     {
-                        bigint q;
-                        bigint rem;
-                        n.divide(millis_in_second, q, rem, true);
-                        auto seconds = static_cast<int64_t>(q);
-                        auto nanoseconds = static_cast<int64_t>(rem) * nanos_in_milli;
-                        if (nanoseconds < 0)
-                        {
-                            nanoseconds = -nanoseconds; 
-                        }
-                        write_timestamp(seconds, nanoseconds);
+                        int64_t seconds;
+                        int64_t millis;
+                        floor_divide(n, millis_in_second, seconds, millis);
+                        write_timestamp(seconds, millis * nanos_in_milli);
                     }
                     else
                     {
@@ -350,15 +371,9 @@ namespace msgpack {
                     }
                     if (n != 0)
                     {
-                        bigint q;
-                        bigint rem;
-                        n.divide(nanos_in_second, q, rem, true);
-                        auto seconds = static_cast<int64_t>(q);
-                        auto nanoseconds = static_cast<int64_t>(rem);
-                        if (nanoseconds < 0)
-                        {
-                            nanoseconds = -nanoseconds; 
-                        }
+                        int64_t seconds;
+                        int64_t nanoseconds;
+                        floor_divide(n, nanos_in_second, seconds, nanoseconds);
                         write_timestamp(seconds, nanoseconds);
                     }
                     else
@@ -549,14 +564,10 @@ namespace msgpack {
                 {
                     if (val != 0)
                     {
-                        auto dv = std::div(val,millis_in_second);
-                        int64_t seconds = dv.quot;
-                        int64_t nanoseconds = dv.rem*nanos_in_milli;
-                        if (nanoseconds < 0)
-                        {
-                            nanoseconds = -nanoseconds; 
-                        }
-                        write_timestamp(seconds, nanoseconds);
+                        int64_t seconds;
+                        int64_t millis;
+                        floor_divide(val, millis_in_second, seconds, millis);
+                        write_timestamp(seconds, millis*nanos_in_milli);
                     }
                     else
                     {
@@ -568,13 +579,9 @@ namespace msgpack {
                 {
                     if (val != 0)
                     {
-                        auto dv = std::div(val,static_cast<int64_t>(nanos_in_second));
-                        int64_t seconds = dv.quot;
-                        int64_t nanoseconds = dv.rem;
-                        if (nanoseconds < 0)
-                        {
-                            nanoseconds = -nanoseconds; 
-                        }
+                        int64_t seconds;
+                        int64_t nanoseconds;
+                        floor_divide(val, static_cast<int64_t>(nanos_in_second), seconds, nanoseconds);
                         write_timestamp(seconds, nanoseconds);
                     }
                     else
@@ -670,13 +677,9 @@ namespace msgpack {
                 {
                     if (val != 0)
                     {
-                        auto dv = std::div(static_cast<int64_t>(val), static_cast<int64_t>(millis_in_second));
-                        int64_t seconds = dv.quot;
-                        int64_t nanoseconds = dv.rem*nanos_in_milli;
-                        if (nanoseconds < 0)
-                        {
-                            nanoseconds = -nanoseconds; 
-                        }
+                        // unsigned division: a value above INT64_MAX must not be read as negative
+                        const auto seconds = static_cast<int64_t>(val / static_cast<uint64_t>(millis_in_second));
+                        const auto nanoseconds = static_cast<int64_t>(val % static_cast<uint64_t>(millis_in_second))*nanos_in_milli;
                         write_timestamp(seconds, nanoseconds);
                     }
                     else
@@ -689,13 +692,8 @@ namespace msgpack {
                 {
                     if (val != 0)
                     {
-                        auto dv = std::div(static_cast<int64_t>(val), static_cast<int64_t>(nanos_in_second));
-                        int64_t seconds = dv.quot;
-                        int64_t nanoseconds = dv.rem;
-                        if (nanoseconds < 0)
-                        {
-                            nanoseconds = -nanoseconds; 
-                        }
+                        const auto seconds = static_cast<int64_t>(val / static_cast<uint64_t>(nanos_in_second));
+                        const auto nanoseconds = static_cast<int64_t>(val % static_cast<uint64_t>(nanos_in_second));
                         write_timestamp(seconds, nanoseconds);
                     }
                     else
